@@ -211,36 +211,34 @@ def watcher_retained(ctx):
     ctors = {b.name for b in watcher_ctor_fn(ctx)}
     ls = r.launchers()
     ctx.need(ls, "actor launcher")
+    input_fns = {b.name for b in ctx.f.user_bodies() if b.name.endswith("Target::input")}
     for L in ls:
+        lab = short(L.name)
         Ren = variant_region(L, "WatchOption", "Enabled")
         calls = calls_in(L, Ren, lambda n: n in ctors)
         if not calls:
-            ctx.bad(f"{short(L.name)}/ctor", [L.loc()], "the launcher does not build a watcher in watch mode")
+            ctx.bad(f"{lab}/ctor", [L.loc()], "the launcher does not build a watcher in watch mode")
             continue
         for bb, t in calls:
             in_at = L.prov.operand_atoms(t["args"][1]) if len(t["args"]) > 1 else set()
             snd_at = L.prov.operand_atoms(t["args"][2], interproc=False) if len(t["args"]) > 2 else set()
-            input_fns = {b.name for b in ctx.f.user_bodies() if b.name.endswith("Target::input")}
             from_input = bool(atom_callres(in_at) & input_fns) or atom_has_field(in_at, "input")
             own_sender = any(c.startswith("async_std::channel::bounded") or c.startswith("async_std::channel::unbounded") for c in atom_callres(snd_at))
-            ctx.check(from_input and own_sender, f"{short(L.name)}/ctor-args", [site(L, bb)],
+            ctx.check(from_input and own_sender, f"{lab}/ctor-args", [site(L, bb)],
                       "the watcher is not built from the target's declared input and the actor's own invalidation sender")
-            # the result flows into the returned handle set
-            d = t["dest"]["local"]
-            fl = L.prov.flows_forward(d)
+            # the result flows into a handle set, and the handle set into the registry's map
+            fl = L.prov.flows_forward(t["dest"]["local"])
             stored = [(x, st) for (x, st) in L.aggregates("TargetActorHandleSet") if any(operand_local(o) in fl for o in st["rv"]["ops"])]
-            ctx.check(bool(stored), f"{short(L.name)}/kept", [site(L, x) for x, _ in stored] or [site(L, bb)], "the watcher is dropped after construction: watching stops at once")
-    # TargetActors stores the handle set
-    stored = 0
-    for b in ctx.f.user_bodies():
-        for bb, t in b.calls():
-            if re.search(r"HashMap::<[\w:]*TargetId, [\w:]*TargetActorHandleSet>::insert$", callee_decl(t)) or (callee_decl(t).endswith("::insert") and "TargetActorHandleSet" in callee_decl(t)):
-                at = b.prov.operand_atoms(t["args"][2]) if len(t["args"]) > 2 else set()
-                if atom_callres(at) & {x.name for x in ls}:
-                    stored += 1
-                    ctx.ok(f"{short(b.name)}/handles-stored", [site(b, bb)])
-    if not stored:
-        ctx.bad("handles-stored", [], "the handle set returned by the launcher (which owns the watcher) is not stored")
+            ctx.check(bool(stored), f"{lab}/kept", [site(L, x) for x, _ in stored] or [site(L, bb)], "the watcher is dropped after construction: watching stops at once")
+            kept = False
+            for (x, st) in stored:
+                fl2 = L.prov.flows_forward(st["lhs"]["local"])
+                for cb, ct in L.calls():
+                    if callee_decl(ct).endswith("::insert") and "TargetActorHandleSet" in callee_decl(ct) and len(ct["args"]) > 2 and operand_local(ct["args"][2]) in fl2:
+                        kept = True
+                        ctx.ok(f"{lab}/handles-stored", [site(L, cb)])
+            if not kept:
+                ctx.bad(f"{lab}/handles-stored", [site(L, bb)], "the handle set (which owns the watcher) is not stored in the registry: the watcher is dropped")
 
 
 # ------------------------------------------------------------------ C08
@@ -250,7 +248,7 @@ def notifier_callers(ctx):
     ctx.need(r.invalidation_notifiers(), "invalidation notifier")
     for nb in r.invalidation_notifiers():
         for (cb, bb, t) in r.callers_of(nb):
-            if cb in r.actors():
+            if r.is_role(r.actors(), cb):
                 ok = any(bb in arm.region for arm in invalidation_arms(cb)) or bb in msg_region(cb, "Invalidated")
             else:
                 ok = False
@@ -268,17 +266,17 @@ def watcher_only_in_watch(ctx):
     f = ctx.f
     ctors = watcher_ctor_fn(ctx)
     for c in ctors:
-        for (cb, bb, t) in r.callers_of(c):
+        for (cb, bb, t) in r.callers_of(c, prefer=[]):
             Ren = variant_region(cb, "WatchOption", "Enabled")
-            ctx.check(bb in Ren, f"{short(cb.name)}/ctor-call", [site(cb, bb)], "a watcher is created outside the WatchOption::Enabled branch: in a one-shot run a file change could re-run a target")
+            ctx.check(bb in Ren, f"{short(cb.origin(bb))}/ctor-call", [site(cb, bb)], "a watcher is created outside the WatchOption::Enabled branch: in a one-shot run a file change could re-run a target")
     # notify Watcher::new only reachable from the constructor
+    reach = set()
+    for c in ctors:
+        reach |= f.cg.reach([c.name])
     for b in f.user_bodies():
         for bb, t in b.calls():
             if t["callee"]["base"].endswith("Watcher::new") and "notify" in callee_decl(t):
                 outer = r.outer_fn(b).name
-                reach = set()
-                for c in ctors:
-                    reach |= f.cg.reach([c.name])
                 ctx.check(b.name in reach or outer in reach, f"{short(b.name)}/notify-new", [site(b, bb)], "a notify watcher is created outside the watcher constructor")
 
 
@@ -323,13 +321,12 @@ def closure_only(ctx):
         if cn in dels or cn in cleaners:
             ups = upv(ma.prov.operand_atoms(t["args"][0]))
             ctx.check(bool(ups) and ups <= tgt_upvars, f"main/{short(cn)}", [site(ma, bb)], f"`{short(cn)}` is applied to {sorted(ups)}, not to the resolver's result: targets outside the requested closure would be touched")
-    # actor creation: launcher call sites
-    for L in r.launchers():
-        for (cb, bb, t) in r.callers_of(L):
-            at = cb.prov.operand_atoms(t["args"][0])
-            from_remove = any(c.endswith("::remove_entry") or c.endswith("::remove") for c in atom_callres(at))
-            def has_key(d):
-                return d[0] == "call" and d[1].endswith("::contains_key") and d[2] and (atom_has_field(d[2][0], "target_actor_handles") or any("TargetActorHandleSet" in str(x) for x in d[2][0]))
-            G = guard_region(cb, has_key, False)
-            ctx.check(from_remove and bb in G, f"{short(cb.name)}/launch-once", [site(cb, bb)],
-                      "an actor can be launched more than once for the same target (not guarded by `!handles.contains_key(id)` or not fed from the removed map entry)")
+    # actor creation: every site creating an actor's run future, seen in its root view
+    for (L, bb, t) in r.launch_sites():
+        at = L.prov.operand_atoms(t["args"][0]) if t["args"] else set()
+        from_remove = any(c.endswith("::remove_entry") or c.endswith("::remove") for c in atom_callres(at))
+        def has_key(d):
+            return d[0] == "call" and d[1].endswith("::contains_key") and d[2] and (atom_has_field(d[2][0], "target_actor_handles") or any("TargetActorHandleSet" in str(x) for x in d[2][0]))
+        G = guard_region(L, has_key, False)
+        ctx.check(from_remove and bb in G, f"{short(L.name)}/launch-once@{short(callee_base(t))}", [site(L, bb)],
+                  "an actor can be launched more than once for the same target (not guarded by `!handles.contains_key(id)` or not fed from the removed map entry)")
